@@ -164,6 +164,20 @@ def check(repo, rep):
         rep.ob('read(size) requests size whole samples from the underlying stream', got_scaled, W(rfn), '%s.read:no-scaled-request' % tag)
         if c.name in ('BufferAudioSource', 'RawAudioSource', 'WaveAudioSource'):
             rep.ob('None / negative size means all remaining samples', got_all, W(rfn), '%s.read:no-read-all' % tag)
+    # ---------------------------------------------------------------- read() never changes whether the source is open (after the end: None on EVERY further call)
+    from ..effects import Effects
+    ef = Effects(cx.model)
+    for mod, c in srcs:
+        r = cx.model.find_method(mod, c, 'read')
+        io_ = cx.model.find_method(mod, c, 'is_open')
+        if r is None or io_ is None:
+            continue
+        open_fields = {n.attr for n in ast.walk(io_[2]) if isinstance(n, ast.Attribute) and isinstance(n.value, ast.Name) and n.value.id == 'self'}
+        eff = ef.transitive(r[0], r[1], r[2])
+        touched = sorted({e[1] for e in eff if e[0] == 'self' and e[1] in open_fields})
+        calls_close = [n for fn_ in [r[2]] for n in ast.walk(fn_) if isinstance(n, ast.Call) and isinstance(n.func, ast.Attribute) and isinstance(n.func.value, ast.Name) and n.func.value.id == 'self' and n.func.attr in ('close', 'open')]
+        rep.ob('read() leaves the open state alone: an exhausted source keeps answering None (it does not close itself)', not touched and not calls_close, cx.where(r[0], r[2]), '%s.read:changes-open-state' % c.name,
+               'read() may write %s (read by is_open) / calls %s' % (touched, [ast.unparse(n.func) for n in calls_close]), sample=dict(source=c.name, open_state_fields=sorted(open_fields), written_by_read=touched))
     # ---------------------------------------------------------------- BufferAudioSource position / rewind / close
     bc = cx.cls('io', 'BufferAudioSource')
     bps = bps_fields(cx, 'io', bc)
